@@ -80,8 +80,10 @@ OerEnc(env, T0, v) ==
          \* 20.1: the outermost tag of the chosen alternative (for an untagged CHOICE
          \* alternative: the tag its value is encoded with)
          IN OerTag(ValueTag(env, c.t, AltVal(v))) \o (IF inRoot THEN body ELSE WithLen(body))
-    [] T.k \in {"SEQOF", "SETOF"} ->
+    [] T.k = "SEQOF" ->
          WithLen(UnsignedMin(IOfInt(Len(v)))) \o ConcatAll([i \in DOMAIN v |-> OerEnc(env, T.t, v[i])])
+    [] T.k = "SETOF" ->   \* canonical OER: the element encodings in ascending order (as X.690 11.6)
+         WithLen(UnsignedMin(IOfInt(Len(v)))) \o ConcatAll(SortOctetStrings([i \in DOMAIN v |-> OerEnc(env, T.t, v[i])]))
 
 OER(env, T, v) == OerEnc(env, T, v)
 =============================================================================
